@@ -642,10 +642,9 @@ func writeReplay(P *Prog, path, prop string, v *Verdict) bool {
 	smtPath := strings.TrimSuffix(path, ".json") + ".smt2"
 	os.WriteFile(smtPath, []byte(v.SMT), 0o644)
 	rep["smt_file"] = smtPath
-	ok := false
-	if v.Status == "refuted" {
-		ok = tryReplay(P, v, rep)
-	}
+	// refuted obligations with a witness are replayed from it; for the operator evaluators (where the solvers answer
+	// `unknown` rather than with a model) a bounded search harness looks for a concrete failing input on the real code
+	ok := tryReplay(P, v, rep)
 	rep["replayed_on_real_code"] = ok
 	data, _ := json.MarshalIndent(rep, "", " ")
 	os.WriteFile(path, data, 0o644)
